@@ -800,11 +800,16 @@ def _transform(node, callback):
 def _finalize_parse_info(text, nodes, pos, fullparse):
     line_numbers, column_numbers = _map_index_to_line_and_column(text)
 
+    # One more entry, for objects that begin or end at the end of the input.
+    line_numbers.append(line_numbers[-1] if line_numbers else 1)
+    column_numbers.append(column_numbers[-1] + 1 if column_numbers else 1)
+
     for node in visit(nodes):
         pos_info = node._metadata.position_info
         if pos_info:
             start, end = pos_info
-            end -= 1
+            # An object that consumed nothing ends where it starts.
+            end = max(end - 1, start)
             node._metadata.position_info = _PositionInfo(
                 start=_Position(start, line_numbers[start], column_numbers[start]),
                 end=_Position(end, line_numbers[end], column_numbers[end]),
